@@ -132,7 +132,9 @@ class C15(object):
                          'coarse_per_period_tolerance.cases',
                          'second_search_after_a_rejected_one.cases',
                          'solver_reused_after_search_of_a_block_with_these_names_exogenous.cases',
-                         'two_cycle_inside_the_tolerance.cases')
+                         'two_cycle_inside_the_tolerance.cases',
+                         'lag_of_a_lag_feedback.cases',
+                         'user_function_replaced_after_an_accepted_search.cases')
 
     def n_cases(self, tier):
         return 300 if tier == 'quick' else 20000
@@ -163,6 +165,30 @@ class C15(object):
     def make_case(self, rng, idx, tier):
         if idx % 12 == 5:
             return self.window_case(rng)
+        if idx % 12 == 0:
+            # a behavioural rule supplied as a user function; the solver first searched with ANOTHER rule registered under the
+            # same name (a scenario change without re-parsing)
+            a_ = rng.choice([0.5, 0.8, 0.25])
+            b1, b2 = rng.choice([10.0, 5.0]), rng.choice([25.0, 40.0])
+            text = 'x = rule(LAG_x)\nLAG_x = x(k-1)\ny = 0.5*x + 1.0\nx(0) = 1.0\nMaxTime = 5'
+            d = {'rows': [], 'names': ['x', 'y'], 'ics': {}, 'exo': None, 'deco': False, 'kinds': ['user_function_rule'], 'loop': None,
+                 'near_cancel': None}
+            return {'kind': 'search', 'dyn': d, 'text': text, 'T': rng.choice([100, 200, 300]), 'loop_default_tolerance': False,
+                    'coarse_step_tolerance': False, 'tol': 10 ** rng.uniform(-6, -3), 'reduction': rng.random() < 0.5,
+                    'via_solve': (idx // 12) % 2 == 1, 'rules': [[a_, b1], [a_, b2]]}
+        if idx % 12 == 6:
+            # a lag of a lag feeding back: x[k] = c + lam*x[k-2].  lam = -1: a period-four cycle a,b,c-a,c-b whose values come in
+            # equal pairs when a == b; lam = 0.5: a path that settles in pairs (0,20,20,30,30,35,...) stopped early
+            lam = -1.0 if (idx // 12) % 2 == 0 else 0.5
+            c = float(rng.choice([20.0, 10.0, 0.0])) if lam < 0 else 20.0
+            a = float(rng.choice([12.0, 1.0, 3.0])) if lam < 0 else 0.0
+            T = rng.choice([4, 6, 8, 30, 200]) if lam < 0 else rng.choice([4, 6, 8])
+            text = 'x = %r + %r*v\nw = x(k-1)\nv = w(k-1)\nx(0) = %r\nw(0) = %r\nv(0) = %r\nMaxTime = 5' % (c, lam, a, a, (c - a) if lam < 0 else 0.0)
+            d = {'rows': [], 'names': ['x', 'w', 'v'], 'ics': {}, 'exo': None, 'deco': False,
+                 'kinds': ['lag_of_a_lag_feedback'], 'loop': None, 'near_cancel': None}
+            return {'kind': 'search', 'dyn': d, 'text': text, 'T': T, 'loop_default_tolerance': False,
+                    'coarse_step_tolerance': False, 'tol': 10 ** rng.uniform(-6, -3), 'reduction': rng.random() < 0.5,
+                    'via_solve': False, 'lag_of_a_lag': True}
         if idx % 12 == 7:
             # an undamped two-cycle whose two points both lie inside +/- tolerance (tolerance well above the absolute band
             # 1e-4 the search treats as zero): it moves by more than the tolerance every period, absolutely and relatively
@@ -228,9 +254,27 @@ class C15(object):
                 except Exception:
                     pass
                 rec.count('solver_reused_after_search_of_variant.cases')
+            if case.get('rules'):
+                (ra, rb), (ra2, rb2) = case['rules']
+                s.AddFunction('rule', lambda v, ra=ra, rb=rb: ra * v + rb)
             s.ParseString(case['text'])
             s.ExtractVariableList()
             s.SetInitialConditions()
+            if case.get('rules'):
+                # first job: the search under the first rule; then the caller swaps the rule and starts over without re-parsing
+                s.ParameterInitialSteadyStateMaxTime = case['T']
+                s.ParameterInitialSteadyStateErrorToler = case['tol']
+                try:
+                    if case.get('via_solve'):
+                        s.ParameterSolveInitialSteadyState = True
+                        s.SolveEquation()
+                    else:
+                        s.CalculateInitialSteadyState()
+                    rec.count('user_function_replaced_after_an_accepted_search.cases')
+                except Exception:
+                    pass
+                s.AddFunction('rule', lambda v, ra2=ra2, rb2=rb2: ra2 * v + rb2)
+                s.SetInitialConditions()
         s.ParameterInitialSteadyStateMaxTime = case['T']
         s.ParameterInitialSteadyStateErrorToler = case['tol']
         default_step_tol = bool(case['dyn'].get('loop')) and case.get('loop_default_tolerance', False)
@@ -251,6 +295,8 @@ class C15(object):
             rec.count('acceptance_window.cases')
         if case.get('sharp_states'):
             rec.count('two_cycle_inside_the_tolerance.cases')
+        if case.get('lag_of_a_lag'):
+            rec.count('lag_of_a_lag_feedback.cases')
         exo_names = [n for n, _ in s.Parser.Exogenous]
 
         def snap():
